@@ -99,6 +99,17 @@ CHECKS = {
         technique="TLA+ library (Dremel) as the oracle in a TLC trace monitor + TLC-generated values + model of the run scanner",
         design_ref="DESIGN.md section 5 C03",
     ),
+    "C17": dict(
+        level="model_checking",
+        text="Reset.tla models which slice-typed footer fields alias the live column writers once a row group is "
+             "committed and what Writer.Reset / format.RowGroup.Reset do to them; TLC checks that right after Reset the "
+             "writer equals a fresh one. Pairs (prior history with sink failures or abandonment, history H) cut from TLC "
+             "simulations of Writer.tla are executed on a reused writer, a fresh writer, another goroutine and in the "
+             "purego build; DetMon.tla requires all sha256 digests of a scenario to agree.",
+        note="One row type; SortingWriter and GenericBuffer.Reset not driven; map fields hold <=1 entry; no encryption.",
+        technique="TLA+ aliasing model (TLC exhaustive) + TLC-generated histories replayed on two builds + TLC trace monitor",
+        design_ref="DESIGN.md section 5 C17",
+    ),
 }
 
 NOT_YET = "check not built yet in this round (planned; see DESIGN.md section 9.3)"
